@@ -421,6 +421,19 @@ TENSOR_UNARY = {
 }
 
 
+@base("intersect_domains", hmesh=("domain", vals("m1", "m2")), deg=("element", vals(Val("1", 1), Val("2", 2))))
+def b_intersect_domains(c, P):
+    """Integration over mesh m with an intersect measure on m1; one coefficient on m1, another on m1 or on a THIRD
+    mesh m2 that occurs only in the integrand (all three meshes have equal coordinate elements)."""
+    A, B = c.mesh("m"), c.mesh("m1")
+    X = c.mesh(P["hmesh"])
+    dxi = ufl.Measure("dx", A, intersect_measures=(ufl.Measure("dx", B),))
+    g = c.coef("g", c.space(B, E.P(TRI, 1)))
+    h = c.coef("h", c.space(X, E.P(TRI, P["deg"])))
+    v = c.arg(c.space(A, E.P(TRI, 1)), 0)
+    return g * h * v * dxi
+
+
 class UserFunction(ufl.Coefficient):
     """What every downstream library does: a subclass of Coefficient (no new UFL type)."""
 
